@@ -16,6 +16,8 @@
                      "converted to the field's type" = decode_weak of the configured subtree, on the
                        modelled fragment of mapstructure;
                      a literal in a value tag reaches a string field as written.
+   [cfix]        : which variant of the value path the tree has (false = unchanged, true = fixes/D-C17g.diff applied),
+                   read off the running code by the driver's facts probe; it selects the model's fx parameter.
    [kf_class]    : the known-finding classes KF-C17a..i as predicates over the configured value /
                    literal and the field type (0 = none).  The driver accepts a failing oracle as a
                    known finding only if the case is in a class AND check_case holds (the
